@@ -122,6 +122,7 @@ def sweep_db(path, ps):
     con.execute("CREATE INDEX ser_z ON ser(z)")
     con.execute("CREATE INDEX ser_ba ON ser(b, a)")
     con.execute("CREATE TABLE wr(k PRIMARY KEY, v) WITHOUT ROWID")
+    con.execute("CREATE INDEX wr_v ON wr(v)")          # its entries are (v, k): a corrupt one may lack the key part
     for i, z in enumerate(lasts[1:]):
         con.execute("INSERT INTO wr VALUES(?,?)", (z, i))
     con.execute("CREATE TABLE big(id INTEGER PRIMARY KEY, t)")
@@ -246,6 +247,17 @@ def run(tier):
         for img, what in spt.shortened():
             add(img, "payload-length", "shortened", what, sbase)
             sweeps += 1
+        # cell counts around the point where the cell pointer array reaches the end of the page, on the emptiest pages
+        # (what lies behind their few cells is zeros: every "pointer" read from there is in range)
+        for pno, (pg, root) in sorted(spt.pages.items()):
+            if pg.ncells > 3 and pno != 1:
+                continue
+            off = spt.base(pno) + pg.hdr + 3
+            for n_ in range(ps // 2 - 62, ps // 2 + 3):
+                img = bytearray(spt.data)
+                img[off:off + 2] = n_.to_bytes(2, "big")
+                add(bytes(img), "cell-count", "window", "cell count of page %d := %d" % (pno, n_), sbase)
+                sweeps += 1
         for img, what in hostile_schemas(sp, d):
             add(img, "master-sql", "inconsistent", what, sbase)
             sweeps += 1
